@@ -43,21 +43,18 @@ const XML_REBOUND: &str = "not-representable-xml-prefix-rebound";
 
 /// What the oracle reads off an ACCEPTED tree for the last clause of C03 ("whatever is accepted …
 /// whose serialisation is accepted again and reparses deep-equal"): the two guards of
-/// `Props/C03.lean` (`NoReservedDecls`, `PlainPiTargets`, evaluated by the model too: request
-/// `accguard`) and what exactly violates them.
+/// `Props/C03.lean` (`NoReservedDecls`, `PlainPiTargets` of Model/AcceptedGuard.lean, evaluated by
+/// the model too: request `accguard`) and what exactly violates them.
 pub struct TreeGuards {
-    /// `NoReservedDecls`: no namespace node is a reserved (re)binding or a prefixed undeclaration
+    /// `NoReservedDecls`: no namespace node declares the prefix `xml`
     pub no_reserved: bool,
-    /// `PlainPiTargets`: every PI target is an NCName other than `xml` in any letter case
+    /// `PlainPiTargets`: every PI target is an NCName (no colon)
     pub plain_pi: bool,
     /// the only violations of `no_reserved` are the legal `xmlns:xml='http://www.w3.org/XML/1998/namespace'`
     pub only_legal_xml_redeclaration: bool,
-    /// some PI has the target `xml` and data (serialised `<?xml data?>`: refused by the tokenizer)
-    pub xml_pi_with_data: bool,
 }
 
 const XML_NS_NAME: &str = "http://www.w3.org/XML/1998/namespace";
-const XMLNS_NS_NAME: &str = "http://www.w3.org/2000/xmlns/";
 
 fn is_nc_name(s: &str) -> bool {
     use xmlparser::XmlCharExt;
@@ -69,33 +66,36 @@ fn is_nc_name(s: &str) -> bool {
 }
 
 pub fn tree_guards(xot: &Xot, doc: xot::Node) -> TreeGuards {
-    let mut g = TreeGuards { no_reserved: true, plain_pi: true, only_legal_xml_redeclaration: true, xml_pi_with_data: false };
+    let mut g = TreeGuards { no_reserved: true, plain_pi: true, only_legal_xml_redeclaration: true };
     for n in xot.all_descendants(doc) {
         match xot.value(n) {
             xot::Value::Namespace(ns) => {
-                let p = xot.prefix_str(ns.prefix());
-                let u = xot.namespace_str(ns.namespace());
-                let allowed = p != "xml" && p != "xmlns" && u != XML_NS_NAME && u != XMLNS_NS_NAME && (p.is_empty() || !u.is_empty());
-                if !allowed {
+                if xot.prefix_str(ns.prefix()) == "xml" {
                     g.no_reserved = false;
-                    if !(p == "xml" && u == XML_NS_NAME) {
+                    if xot.namespace_str(ns.namespace()) != XML_NS_NAME {
                         g.only_legal_xml_redeclaration = false;
                     }
                 }
             }
             xot::Value::ProcessingInstruction(pi) => {
-                let t = xot.local_name_str(pi.target());
-                if !is_nc_name(t) || t.eq_ignore_ascii_case("xml") {
+                if !is_nc_name(xot.local_name_str(pi.target())) {
                     g.plain_pi = false;
-                }
-                if t == "xml" && pi.data().is_some() {
-                    g.xml_pi_with_data = true;
                 }
             }
             _ => {}
         }
     }
     g
+}
+
+/// Line ends are normalised in comments and PI data too (XML 1.0 section 2.11), and nothing there
+/// can denote a CR: a CR in such a value was copied from the source.
+fn comment_or_pi_with_cr(t: &GTree) -> bool {
+    let here = match &t.v {
+        GValue::Comment(s) | GValue::PI(_, Some(s)) => s.contains('\r'),
+        _ => false,
+    };
+    here || t.kids.iter().any(comment_or_pi_with_cr)
 }
 
 fn mode_word(fragment: bool) -> &'static str {
@@ -118,7 +118,8 @@ fn entry_name(fragment: bool) -> &'static str {
 pub struct Expect<'r> {
     /// rendered well-formed input of this mode: the document it denotes
     pub rendered: Option<&'r Rendered>,
-    /// a catalogue fault was applied: must be rejected in mode `fault_fragment`
+    /// a catalogue fault was applied (or planted by the renderer): must be rejected — in the
+    /// rendered input's own mode; in both modes where there is no rendered input
     pub fault: Option<&'r str>,
 }
 
@@ -132,6 +133,10 @@ pub fn case_mode(ctx: &mut Ctx, xml: &str, fragment: bool, ex: &Expect) {
     ctx.sink.stat(&format!("tokens.{}", match dump.toks.len() { 0 => "0", 1..=5 => "1-5", 6..=20 => "6-20", _ => "21+" }));
     let entry = entry_name(fragment);
     let expects_here = |r: &Rendered| r.fragment == fragment;
+    // the fault this mode has to reject
+    let fault_here: Option<&str> = ex.fault.filter(|_| ex.rendered.map_or(true, expects_here));
+    // namespace constraints / reserved PI targets the tokens show (whatever produced the input)
+    let nsv = namespace_constraint_violations(&dump);
     // the entry point without span info must agree
     {
         let (_x2, _v2, obs2, resp2) = observe(xml, fragment, false, &dump);
@@ -160,12 +165,25 @@ pub fn case_mode(ctx: &mut Ctx, xml: &str, fragment: bool, ex: &Expect) {
                 ctx.fail("C17", &format!("error-span-outside-source-{}", err_variant(e)), "ParseError span outside [0, len]", entry, xml);
             }
             ctx.sink.stat(&format!("err.{}", err_variant(e)));
-            if let (Some(f), Some(r)) = (ex.fault, ex.rendered) {
+            if let Some(f) = fault_here {
+                ctx.sink.stat(&format!("fault-rejected.{}.{}", f, err_variant(e)));
                 if let Some(want) = fault_variant(f) {
-                    if expects_here(r) && err_variant(e) != want {
-                        ctx.fail("C03", &format!("fault-{}-rejected-as-{}", f, err_variant(e)), "an ill-formed text was rejected with another error than the one that names the fault", entry, xml);
+                    if err_variant(e) != want {
+                        let what = "an ill-formed text was rejected with another error than the one that names the fault";
+                        if RESERVED_FAULTS.contains(&f) {
+                            ctx.fail("C03", &fault_signature(f), what, entry, xml);
+                        } else {
+                            ctx.fail("C03", &format!("fault-{}-rejected-as-{}", f, err_variant(e)), what, entry, xml);
+                        }
                     }
                 }
+            }
+            // the two new variants name a cause the tokens must show
+            if err_variant(e) == "InvalidNamespaceDeclaration" && !(nsv.reserved || nsv.undeclared) {
+                ctx.fail("C02", "legal-namespace-declaration-rejected", "InvalidNamespaceDeclaration although no declaration is reserved or a prefixed undeclaration", entry, xml);
+            }
+            if err_variant(e) == "InvalidTarget" && !nsv.xml_pi {
+                ctx.fail("C02", "legal-pi-target-rejected", "InvalidTarget although no PI has the target xml", entry, xml);
             }
             if let Some(r) = ex.rendered {
                 if expects_here(r) && ex.fault.is_none() {
@@ -174,19 +192,29 @@ pub fn case_mode(ctx: &mut Ctx, xml: &str, fragment: bool, ex: &Expect) {
             }
         }
         Observed::Ok(seen) => {
-            if let (Some(f), Some(r)) = (ex.fault, ex.rendered) {
-                if expects_here(r) {
-                    ctx.fail("C03", &fault_signature(f), "an ill-formed text was accepted", entry, xml);
+            if let Some(f) = fault_here {
+                ctx.fail("C03", &fault_signature(f), "an ill-formed text was accepted", entry, xml);
+            }
+            // recorded defects of xot, kept apart from `problems` so that the other oracles still run
+            if nsv.xml_rebound {
+                ctx.sink.stat("accepted.xml-prefix-rebound");
+            }
+            if ex.fault.is_none() {
+                if nsv.reserved {
+                    ctx.fail("C03", "reserved-prefix-or-namespace-rebound-accepted", "accepted although a reserved prefix / namespace name is (re)bound (Namespaces in XML 1.0 section 3)", entry, xml);
+                }
+                if nsv.undeclared {
+                    ctx.fail("C03", "prefixed-undeclaration-accepted", "accepted although a prefix is declared with an empty namespace name (Namespaces in XML 1.0 section 3, NSC No Prefix Undeclaring)", entry, xml);
+                }
+                if nsv.xml_rebound {
+                    ctx.fail("C03", "xml-prefix-rebound-accepted", "accepted although the prefix xml is bound to another namespace name than http://www.w3.org/XML/1998/namespace (Namespaces in XML 1.0 section 3)", entry, xml);
+                }
+                if nsv.xml_pi {
+                    ctx.fail("C03", "pi-target-xml-accepted-serialisation-rejected", "accepted although a processing instruction has the reserved target xml (XML 1.0 section 2.6)", entry, xml);
                 }
             }
-            // namespace constraints the tokens show (whatever produced the input); recorded
-            // defects of xot, kept apart from `problems` so that the other oracles still run
-            let (reserved, undeclared, xml_rebound) = namespace_constraint_violations(&dump);
-            if reserved && ex.fault.is_none() {
-                ctx.fail("C03", "reserved-prefix-or-namespace-rebound-accepted", "accepted although a reserved prefix / namespace name is (re)bound (Namespaces in XML 1.0 section 3)", entry, xml);
-            }
-            if undeclared && ex.fault.is_none() {
-                ctx.fail("C03", "prefixed-undeclaration-accepted", "accepted although a prefix is declared with an empty namespace name (Namespaces in XML 1.0 section 3, NSC No Prefix Undeclaring)", entry, xml);
+            if comment_or_pi_with_cr(&seen.tree) {
+                ctx.fail("C02", "comment-pi-line-ends-not-normalised", "a comment / PI data value contains a CR: line ends are not normalised (XML 1.0 section 2.11)", entry, xml);
             }
             let mut problems = BTreeSet::new();
             let act = to_abstract(&vocab, &seen.tree, &mut problems);
@@ -228,29 +256,28 @@ pub fn case_mode(ctx: &mut Ctx, xml: &str, fragment: bool, ex: &Expect) {
             }
             let class = if g.no_reserved && g.plain_pi {
                 "guards-hold"
-            } else if !g.no_reserved && !g.only_legal_xml_redeclaration {
-                "guard-violated.reserved-or-undeclaring-declaration"
-            } else if g.xml_pi_with_data {
-                "guard-violated.pi-target-xml-with-data"
+            } else if !g.only_legal_xml_redeclaration {
+                "guard-violated.xml-prefix-rebound"
             } else if !g.no_reserved {
                 "guard-violated.legal-redeclaration-of-xml-only"
             } else {
-                "guard-violated.pi-target-not-plain-ncname"
+                "guard-violated.pi-target-not-ncname"
             };
             ctx.sink.stat(&format!("accepted.{}", class));
-            // outside the known findings the serialisation has to be accepted again and to be deep-equal
-            let must_round_trip = (g.no_reserved || g.only_legal_xml_redeclaration) && !g.xml_pi_with_data;
+            // outside the known finding (and the repaired ones, should they come back: reported above)
+            // the serialisation has to be accepted again and to be deep-equal
+            let must_round_trip = g.only_legal_xml_redeclaration && !nsv.reserved && !nsv.undeclared && !nsv.xml_pi;
             if problems.is_empty() {
                 let doc = seen.doc;
                 // one signature for every failure where the guards promise the round trip
                 let mut broken = |ctx: &mut Ctx, specific: &str, what: &str| {
                     if must_round_trip {
                         ctx.fail("C03", "accepted-tree-does-not-round-trip", &format!("{} ({})", what, specific), entry, xml);
-                    } else if g.xml_pi_with_data {
+                    } else if nsv.xml_pi {
                         ctx.fail("C03", "pi-target-xml-accepted-serialisation-rejected", what, entry, xml);
-                    } else if xml_rebound {
+                    } else if !g.only_legal_xml_redeclaration {
                         ctx.fail("C03", XML_REBOUND, what, entry, xml);
-                    } else if undeclared {
+                    } else if nsv.undeclared {
                         ctx.fail("C03", "not-representable-prefixed-undeclaration", what, entry, xml);
                     } else {
                         ctx.fail("C03", specific, what, entry, xml);
@@ -311,18 +338,6 @@ pub fn case_mode(ctx: &mut Ctx, xml: &str, fragment: bool, ex: &Expect) {
                             }
                         }
                     }
-                    if c02.contains("xml-id-not-fully-normalised") {
-                        // only the ids spelled with another prefix than `xml` are affected: another defect
-                        let mut bad = vec![];
-                        unnormalised_ids(&act, &mut bad);
-                        if !bad.is_empty() && bad.iter().all(|v| r.alias_ids.contains(v)) {
-                            c02.remove("xml-id-not-fully-normalised");
-                            c02.insert("xml-id-through-other-prefix-not-normalised".into());
-                            if c02.remove("xml-id-node-misses-partially-normalised-id") {
-                                c02.insert("xml-id-node-misses-id-written-through-other-prefix".into());
-                            }
-                        }
-                    }
                     if r.feats.contains("attr-local-xmlns") {
                         // everything below such an attribute inherits the bogus default namespace
                         let collateral = ["element-namespace-differs", "declarations-differ", "attributes-differ", "children-differ"];
@@ -380,11 +395,17 @@ pub fn case_mode(ctx: &mut Ctx, xml: &str, fragment: bool, ex: &Expect) {
     }
 }
 
+/// The faults the parser rejects since /repo 6153ddf, a5dcf8e, 002854f: accepted, or rejected with
+/// another variant, they are filed under the signature of the repaired finding.
+const RESERVED_FAULTS: &[&str] = &["reserved-prefix-or-namespace-rebound", "prefixed-undeclaration", "pi-target-xml"];
+
 /// The error variant a fault has to be rejected with, where the catalogue entry pins it down.
 fn fault_variant(fault: &str) -> Option<&'static str> {
     match fault {
         "end-tag-with-other-prefix" => Some("InvalidCloseTag"),
-        "duplicate-xml-id" | "duplicate-xml-id-after-normalisation" | "duplicate-xml-id-via-other-prefix" => Some("DuplicateId"),
+        "duplicate-xml-id" | "duplicate-xml-id-after-normalisation" => Some("DuplicateId"),
+        "reserved-prefix-or-namespace-rebound" | "prefixed-undeclaration" => Some("InvalidNamespaceDeclaration"),
+        "pi-target-xml" => Some("InvalidTarget"),
         _ => None,
     }
 }
@@ -403,12 +424,14 @@ fn fault_signature(fault: &str) -> String {
         "duplicate-xml-id-after-normalisation-accepted".into()
     } else if fault == "end-tag-with-other-prefix" {
         "end-tag-with-other-prefix-accepted".into()
-    } else if fault == "duplicate-xml-id-via-other-prefix" {
-        "duplicate-xml-id-via-other-prefix-accepted".into()
     } else if fault == "reserved-prefix-or-namespace-rebound" {
         "reserved-prefix-or-namespace-rebound-accepted".into()
+    } else if fault == "xml-prefix-rebound" {
+        "xml-prefix-rebound-accepted".into()
     } else if fault == "prefixed-undeclaration" {
         "prefixed-undeclaration-accepted".into()
+    } else if fault == "pi-target-xml" {
+        "pi-target-xml-accepted-serialisation-rejected".into()
     } else if fault == "ill-formed-reference-in-namespace-declaration" {
         "ill-formed-namespace-declaration-value-accepted".into()
     } else {
@@ -492,11 +515,43 @@ pub const CORPUS: &[&str] = &[
     "<:a :b='1'/>",
     "<r xmlns=\"urn:a\" xmlns:p=\"urn:b\" k=\"&lt;&#x41;&amp;\"><p:c xml:id=\" i \"/><![CDATA[x]]>y&#xD;<!--c--><?t d?><e xmlns=\"\"/></r>",
     "<a xmlns:p='http://www.w3.org/2000/xmlns/'><p:b/></a>",
+    // line ends in comments and PI data (normalised since /repo f8655b7)
+    "<a><!--x\r\ny--><?p x\ry?></a>",
+    "<!--\r--><a/><?p \r\n\r?>",
+    "<a><!--\r\r\n\n\r--><?p\r\nx\r?></a>",
+    // order of the checks in DocumentBuilder::prefix: value decoding, reserved / undeclaration test
+    // (on the decoded URI), duplicate test; the prefix xml is exempt from the undeclaration test
+    "<a xmlns:xmlns='&bogus;'/>",
+    "<a xmlns:p='&#0;' xmlns:xmlns='u'/>",
+    "<a xmlns:p='u' xmlns:p=''/>",
+    "<a xmlns:p='' xmlns:p='u'/>",
+    "<a xmlns:p='u' xmlns:p='http://www.w3.org/2000/xmlns/'/>",
+    "<a xmlns:p='http://www.w3.org/2000/xmlns&#x2F;'/>",
+    "<a xmlns:p='http://www.w3.org/2000/xmlns&#x2F'/>",
+    "<a xmlns:p='&#x20;'/>",
+    "<a xmlns:p=' '/>",
+    "<a xmlns:p='\t'/>",
+    "<a xmlns:xml=''/>",
+    "<a xmlns:xml='' xml:id=' i '/>",
+    "<a xmlns:xml='http://www.w3.org/XML/1998/namespace'/>",
+    "<a xmlns:xml='zzz'><b xmlns:xml='http://www.w3.org/XML/1998/namespace' xml:id=' i '/></a>",
+    "<a xmlns:XML='u' xmlns:Xmlns='v'/>",
+    "<a xmlns='http://www.w3.org/XML/1998/namespace' b='1' b='2'/>",
+    "<a b='1' b='2' xmlns:xmlns='u'/>",
+    "<zz:a xmlns:p=''/>",
+    "<a xmlns:p=''",
+    "<?xml\tx?><a/>",
+    "<?xml x?><a/>",
+    "<a><?xml x?></a>",
+    "<a/><?XmL?>",
+    "<?xml version='1.0'?><?XML version='1.0'?><a/>",
+    "<a><?xmlx y?><?xml-stylesheet z?><?x:ml?></a>",
+    "<?xMl?>",
 ];
 
 const SNIPPETS: &[&str] = &[
     "<a>", "</a>", "<a/>", "<b>", "</b>", "<p:a>", "</p:a>", "<a ", " b='1'", " b=\"", "'", "\"", ">", "/>", " xmlns:p='u'", " xmlns='v'",
-    " xml:id=' i '", " p:b='2'", "&amp;", "&#65;", "&#x", ";", "&", "<![CDATA[", "]]>", "<!--", "-->", "--", "<?pi ", "?>", "<?xml version='1.0'?>",
+    " xml:id=' i '", " p:b='2'", " xmlns:p=''", " xmlns:xmlns='u'", " xmlns:xml='zzz'", " xmlns:q='http://www.w3.org/2000/xmlns/'", " xmlns='http://www.w3.org/XML/1998/namespace'", "<?XmL ", "<?xml?>", "<!--\r\n", "<?pi \r", "&amp;", "&#65;", "&#x", ";", "&", "<![CDATA[", "]]>", "<!--", "-->", "--", "<?pi ", "?>", "<?xml version='1.0'?>",
     "<?x:y ", "<?xml\t", "<!DOCTYPE a>", "t", " ", "\r\n", "\r", "é", "\u{1f600}", "<", "=", "]]", "\u{feff}", "\u{0}", "\u{fffe}",
 ];
 
@@ -522,7 +577,14 @@ fn rendered_case(ctx: &mut Ctx, rng: &mut Rng, all_faults: bool, n_faults: usize
     }
     ctx.sink.stat(if fragment { "input.rendered-fragment" } else { "input.rendered-document" });
     ctx.sink.stat(&format!("rendered.len.{}", match r.text.len() { 0..=20 => "0-20", 21..=80 => "21-80", 81..=300 => "81-300", _ => "301+" }));
-    case(ctx, &r.text, &Expect { rendered: Some(&r), fault: None });
+    if let Some(f) = r.planted {
+        ctx.sink.stat(&format!("planted.{}", f));
+    }
+    case(ctx, &r.text, &Expect { rendered: Some(&r), fault: r.planted });
+    if r.planted.is_some() {
+        // already ill-formed: the catalogue's pinned variants assume a well-formed base text
+        return;
+    }
     let mut fs = faults(&r, rng, all_faults);
     if !all_faults {
         // sample
@@ -560,6 +622,10 @@ pub fn run(seed: u64, count: usize, tier: &str, sink: &mut Sink) {
     for s in CORPUS {
         ctx.sink.stat("input.corpus");
         case(&mut ctx, s, &Expect { rendered: None, fault: None });
+    }
+    for (s, fault) in PINNED_REJECTS {
+        ctx.sink.stat("input.corpus-pinned-reject");
+        case(&mut ctx, s, &Expect { rendered: None, fault: Some(fault) });
     }
     if tier == "thorough" {
         // every sequence of up to 3 snippets of a reduced alphabet
